@@ -9,28 +9,31 @@
 EXTENDS MCFile
 CONSTANTS Classes
 
+VARIABLE c
 Set(b, off, w) == [i \in 1..Len(b) |-> IF i > off /\ i <= off + Len(w) THEN w[i - off] ELSE b[i]]
 FieldOff(class, name) == 16 + COff(CLayout("tail", class), FieldIdx(CLayout("tail", class), name))
 
+\* z = 1: the fields of shdr[0] that carry nothing (type, flags, alignment, entry size) are not zero - the tables
+\* are located by what the header and the three extension fields declare, nothing else
 Secs(nsec) == [i \in 1..nsec |->
-                 IF i = 1 THEN NullSec
+                 IF i = 1 THEN (IF "z" \in DOMAIN c /\ c.z = 1 THEN [NullSec EXCEPT !.type = 1, !.flags = 2, !.align = 8, !.entsize = 1] ELSE NullSec)
                  ELSE Sec(<<46, 96 + i>>, IF i = 2 THEN 3 ELSE 1, [j \in 1..(i + 1) |-> 16 * i + j])]
 Segs(nseg) == [k \in 1..nseg |-> [type |-> 1, flags |-> 4 + k, sec |-> 0, off |-> 16 * k, filesz |-> k, memsz |-> 1, align |-> 16]]
 
 LocDefects == {"none", "shentsize-1", "shentsize+1", "shentsize0", "phentsize-1", "phentsize+1", "cut1", "shoff0", "phoff0"}
 
-VARIABLE c
 Init == c = [stage |-> 0]
 Next == \/ c.stage = 0 /\ \E cl \in Classes, l \in BOOLEAN, nsec \in 1..3, nseg \in 0..2 :
                              c' = [stage |-> 1, class |-> cl, little |-> l, nsec |-> nsec, nseg |-> nseg]
-        \/ c.stage = 1 /\ \E early \in BOOLEAN, xs \in BOOLEAN, xp \in BOOLEAN, xi \in BOOLEAN, ndx \in 0..2, d \in LocDefects :
+        \/ c.stage = 1 /\ \E early \in BOOLEAN, xs \in BOOLEAN, xp \in BOOLEAN, xi \in BOOLEAN, ndx \in 0..2, d \in LocDefects, z \in {0, 1} :
                              /\ ndx < c.nsec /\ (xi => ndx > 0)
                              /\ (xp => c.nseg > 0)
-                             /\ c' = [c EXCEPT !.stage = 2] @@ [early |-> early, xs |-> xs, xp |-> xp, xi |-> xi, ndx |-> ndx, d |-> d]
+                             /\ (z = 1 => d = "none")
+                             /\ c' = [c EXCEPT !.stage = 2] @@ [early |-> early, xs |-> xs, xp |-> xp, xi |-> xi, ndx |-> ndx, d |-> d, z |-> z]
 
 
 Opts == [early |-> c.early, shstrndx |-> c.ndx, shnum_ext |-> c.xs, phnum_ext |-> c.xp, shstrndx_ext |-> c.xi,
-         etype |-> IF c.xp THEN 4 ELSE IF c.early THEN 3 ELSE 1]           \* (no answer may depend on the kind of object)
+         etype |-> IF c.xp THEN 4 ELSE IF c.early THEN 3 ELSE 1, emachine |-> IF c.xs THEN 8 ELSE 62]           \* (no answer may depend on the kind of object)
 Good == BuildObj(c.class, c.little, Secs(c.nsec), Segs(c.nseg), Opts)
 Enc16(n) == IF c.little THEN W2(n) ELSE Rev(W2(n))
 ShEs == CSize("shdr", c.class)
